@@ -11,7 +11,7 @@ def run(rep, tier, seed, replay):
                        "connections each; round robin under 64 concurrent callers for n in {1,2,3,5,7,16} (each host must get exactly k of n*k picks); host set: the C15 operation sequences "
                        "(the candidate list and the removal latch of the stored object after Remove through another object). non-trivial = non-empty candidate list; distinct = distinct case line")
     rep.cov["rule"] += ("; end to end: the TCP processor (round robin / least connection / random) in front of 2-3 scripted backends that can refuse and come back, connections opened and "
-                        "kept, closed, hosts removed and added: after every step each host's ConnCount() (what least-connection reads) is compared with the model's count of relayed "
+                        "kept, closed, hosts removed and added, a host removed while the processor is still dialling a backend whose connects hang: after every step each host's ConnCount() (what least-connection reads) is compared with the model's count of relayed "
                         "connections, removal must close the kept connections of that host, no connection may reach a removed host, round robin must cycle")
     rep.assumptions += ["in the end-to-end run the random draws of least-connection/random are not scripted: only counts, membership and removal are compared there",
                         "atomic increments hand out distinct consecutive values (Go's sync/atomic)"]
@@ -50,6 +50,11 @@ def run(rep, tier, seed, replay):
         policy, nb = hd.split()[0], int(hd.split()[1])
         removed, down, run_ = set(), set(), []
         for op in ops.split():
+            if op[0] == "O":
+                # opened while host k is being removed: what matters (reached k after its removal) shows as a connection to k
+                # that the removal did not close, i.e. in the comparison with the model
+                run_ = []
+                continue
             if op[0] == "o":
                 r = op.split(":")[1]
                 if r.startswith("b"):
